@@ -32,7 +32,13 @@ The full statement "file lines of any length are read whole" is FALSE of the unc
 `file_hosts_spec_partial` / `file_source_spec_partial`: on well-formed files whose lines fit the buffer
 the reader IS the specification `Opt/WcollSpec.lean` (same expressions in the same order, one warning
 per skipped second reach, same error status); for the repaired reader without any length condition.
-Not proved here: hostlist expansion;  dirname(3)/access(2) themselves;  the opt.c side is proved
+END TO END (`target_list_end_to_end`): with C02's model of `wcoll_arg_process` / exclusion / regex filters and
+C01's `hostlist_create` / re-expansion, the hosts pdsh goes on with are the expansion of every target word in
+source order (files inlined, WCOLL iff no target source) minus the excluded names, filtered — in ONE decidable
+domain `targetDomain`; the empty list is refused with exit 1 (`no_source_no_list`, `empty_list_exit1`).
+DESCRIPTORS (`descriptors_balanced`, `open_files_le_depth`): every stream the reader opens is closed when
+`wcoll_ctx_read_file` returns, one stream per include level at most (ghost counter, erasable).
+Not proved here: hostlist expansion (outside the end-to-end section);  dirname(3)/access(2) themselves;  the opt.c side is proved
 against its own characterisation (`order_of_sources`), the check compares it with the
 specification's `assemble` on every generated command line.
 -/
